@@ -112,7 +112,7 @@ func specMs(d time.Duration) float64 { return ConvertDurationToMs(d) }
 // transition rule of the merge (C07): the table depends on the accepted replies only through this rule.
 
 //@ func TracerouteParallel
-//@ safety C03 C04 C05 C10
+//@ safety C03 C04 C05 C10 C14
 //@ modifies *, ghost clock, ghost sendN, ghost sendLog, ghost sendClock
 //@ monitor resultsMu protects results
 //@ inv[C01.slot]            forall(k, 0, len(results), results[k] != nil ==> int(results[k].TTL) == k && int(p.MinTTL) <= k)
@@ -129,7 +129,7 @@ func specMs(d time.Duration) float64 { return ConvertDurationToMs(d) }
 //@ ensures[C06.par.pace]      forall(k, old(sendN)+1, sendN, sel(sendClock, k) >= sel(sendClock, k-1) + int(p.SendDelay))
 
 //@ func TracerouteParallel$1
-//@ safety C07 C04 C05
+//@ safety C07 C04 C05 C14
 //@ requires[pre.probe]     probe != nil && p.MinTTL <= probe.TTL && int(probe.TTL) < len(results)
 //@ ensures[C07.rule]       results[probe.TTL] == ite(atlock(results[probe.TTL]) == nil, probe, ite(!atlock(results[probe.TTL]).IsDest && probe.IsDest, probe, atlock(results[probe.TTL])))
 //@ ensures[C07.others]     forall(k, 0, len(results), k != int(probe.TTL) ==> results[k] == atlock(results[k]))
@@ -137,7 +137,7 @@ func specMs(d time.Duration) float64 { return ConvertDurationToMs(d) }
 //@ modifies elemtype(*ProbeResponse), resultsMu
 
 //@ func TracerouteParallel$2
-//@ safety C06
+//@ safety C06 C14
 //@ requires[pre.valid]        p.MinTTL >= 1 && p.MinTTL <= p.MaxTTL && t != nil && writerCtx != nil && sendN >= 0
 //@ ensures[C06.par.order]     (sendN == old(sendN) || sendN - old(sendN) <= int(p.MaxTTL)-int(p.MinTTL)+1) && forall(k, old(sendN), sendN, sel(sendLog, k) == int(p.MinTTL) + (k - old(sendN)))
 //@ ensures[C06.par.pace]      forall(k, old(sendN)+1, sendN, sel(sendClock, k) >= sel(sendClock, k-1) + int(p.SendDelay))
@@ -150,7 +150,7 @@ func specMs(d time.Duration) float64 { return ConvertDurationToMs(d) }
 //@ loop 1 invariant[C06.last] sendN > old(sendN) ==> now() >= sel(sendClock, sendN-1) + int(p.SendDelay)
 
 //@ func TracerouteParallel$3
-//@ safety C09 C04 C05 C07
+//@ safety C09 C04 C05 C07 C14
 //@ requires[pre.valid]        p.MinTTL >= 1 && p.MinTTL <= p.MaxTTL && t != nil && groupCtx != nil && len(results) == int(p.MaxTTL)+1 && !held(resultsMu)
 //@ ensures[C14.unlocked]      !held(resultsMu)
 //@ modifies elemtype(*ProbeResponse), resultsMu, ghost clock
